@@ -207,6 +207,14 @@ def op_barCopy(n, d, key, r):
         guarded(lambda: p_bar(Bar(seq_of_rel(r), n, d, _key(key)).copy()))
 
 
+def op_barTranspose(n, d, key, r, by):
+    def f():
+        b = Bar(seq_of_rel(r), n, d, _key(key))
+        flag = b.transpose(by)
+        return p_bool(flag) + " " + p_bar(b)
+    return ["barTranspose", w(n), w(d), w(key)] + enc_msgs(r) + [w(by)], guarded(f)
+
+
 def op_splitBars(meta_idx, requant, tracks):
     def f():
         seqs = [seq_of_rel(t) for t in tracks]
